@@ -268,7 +268,25 @@ func plantDangling(t *rapid.T, u *ugen.Universe) (string, string, []string) {
 	} else {
 		cands = append(cands, d{"http://nowhere.test/x.json", "unknown document", nil})
 	}
+	flipCase := func(uri string) string {
+		// flip the case of the last path letter: paths are case-sensitive, so this is another URI
+		b := []byte(uri)
+		for i := len(b) - 1; i >= 0 && b[i] != '/'; i-- {
+			if b[i] >= 'a' && b[i] <= 'z' {
+				b[i] -= 32
+				return string(b)
+			}
+			if b[i] >= 'A' && b[i] <= 'Z' {
+				b[i] += 32
+				return string(b)
+			}
+		}
+		return ""
+	}
 	for _, k := range sortedKeys(u.Docs) {
+		if f := flipCase(k); f != "" && u.Docs[f] == nil {
+			cands = append(cands, d{f, "URI of a document with the case of one path letter changed", nil})
+		}
 		cands = append(cands, d{k + "#definitely-not-an-anchor", "absent anchor in remote document", nil}, d{k + "#/$defs/nope/x", "pointer to nowhere in remote document", nil})
 		// an anchor that exists only inside an embedded resource of that document must not be
 		// visible from the document's root resource
